@@ -615,7 +615,13 @@ func selftest(o *opts) int {
 		for rep := 0; rep < 2; rep++ {
 			for _, g := range []int{1, 4, 16} {
 				out := filepath.Join(o.scratch, fmt.Sprintf("self-%s-%d-%d.json", p, g, rep))
-				cmd := spawn(&oo, []string{"-only", strings.Join(only, ",")}, g, out)
+				list := append([]string(nil), only...)
+				if rep == 1 { // the same cases in reverse order: the harness itself must not depend on what ran before
+					for i, j := 0, len(list)-1; i < j; i, j = i+1, j-1 {
+						list[i], list[j] = list[j], list[i]
+					}
+				}
+				cmd := spawn(&oo, []string{"-only", strings.Join(list, ",")}, g, out)
 				if err := cmd.Start(); err != nil {
 					fatal("selftest: %v", err)
 				}
@@ -644,7 +650,7 @@ func selftest(o *opts) int {
 				}
 			}
 		}
-		fmt.Printf("selftest: %s: %d cases x 6 processes (GOMAXPROCS 1/4/16, twice): %d digest mismatch(es)\n", p, n, bad)
+		fmt.Printf("selftest: %s: %d cases x 6 processes (GOMAXPROCS 1/4/16; forward and reverse order): %d digest mismatch(es)\n", p, n, bad)
 	}
 	if bad > 0 {
 		return 2
